@@ -597,6 +597,35 @@ func runC08(p *core.Prog, r *core.Report, tier string) {
 	}
 	r.Floor("C08.j node version lookups", nJ, 1)
 
+	// ---- (l) the tolerated rejections can match: a text that was lower-cased (or upper-cased) is not searched for a
+	// constant that contains a letter of the other case (the tolerated rejection would never be recognised, and a
+	// node's harmless refusal turns the whole submission into a failure) ----
+	nNeedle := 0
+	for _, f := range p.FuncsIn("services/submitter/multinode") {
+		core.EachInstr(f, func(in ssa.Instruction) {
+			c, ok := in.(*ssa.Call)
+			if !ok || c.Call.StaticCallee() == nil || c.Call.StaticCallee().Pkg == nil || c.Call.StaticCallee().Pkg.Pkg.Path() != "strings" || len(c.Call.Args) != 2 {
+				return
+			}
+			switch c.Call.StaticCallee().Name() {
+			case "Contains", "HasPrefix", "HasSuffix", "Index":
+			default:
+				return
+			}
+			needle, ok := constString(c.Call.Args[1])
+			if !ok {
+				return
+			}
+			nNeedle++
+			hd := ds.D(c.Call.Args[0])
+			lowered, uppered := hd.MentionsCall("strings.ToLower"), hd.MentionsCall("strings.ToUpper")
+			bad := lowered && needle != strings.ToLower(needle) || uppered && needle != strings.ToUpper(needle)
+			r.Check(!bad, "C08.l", fmt.Sprintf("%s|needle-can-match#%d", core.FnKey(f), nNeedle), p.Pos(c.Pos()), "the text searched and the constant searched for agree in case",
+				fmt.Sprintf("a case-folded text is searched for %q, which contains letters of the other case and therefore never matches: the rejection it stands for is no longer tolerated", needle))
+		})
+	}
+	r.Floor("C08.l constant needles in the classification helpers", nNeedle, 4)
+
 	// ---- (k) one failing node does not abort the submissions to the others ----
 	checkNoFailFastContext(p, r, "C08.k", []string{"services/submitter/"}, "a node that rejects the submission aborts the deliveries still in flight to the other nodes")
 
